@@ -247,7 +247,7 @@ def main():
         lines = impl.get(c.cid, [])
         for op, res in zip(c.ops, lines):
             hist_ops[op.split(" ")[0]] += 1
-            hist_res[re.split(r"[ :]", res, 1)[0]] += 1
+            hist_res[re.split(r"[ :=]", res, 1)[0][:24]] += 1
         key = "\n".join(c.ops)
         if key in distinct:
             continue
@@ -266,7 +266,7 @@ def main():
         "evaluations": sum(len(c.ops) for c in cases), "cases": len(cases),
         "distinct_nontrivial": len(distinct), "rule": prop.RULE, "samples": samples,
         "exhaustive": bool(getattr(prop, "EXHAUSTIVE", {}).get(args.tier, False)),
-        "op_histogram": dict(hist_ops), "result_histogram": dict(hist_res),
+        "op_histogram": dict(hist_ops.most_common(60)), "result_histogram": dict(hist_res.most_common(60)),
         "case_tags": dict(collections.Counter(t for c in cases for t in c.tags)),
         "tier_run": tier_run, "spec_level_differences": len(spec_diffs), "model_level_differences": len(model_diffs),
         "broken_obligations": problems, "leanchecker": rechecked,
